@@ -198,6 +198,14 @@ pub fn step(label: &'static str) {
     HEARTBEAT.fetch_add(1, Ordering::Relaxed);
 }
 
+/// The same octets in a heap allocation of exactly their length: a read one octet past the input then
+/// leaves the allocation, which is what AddressSanitizer and the interpreter can see (a `Vec` that
+/// grew by pushing has spare capacity behind its last element and hides it).
+pub fn exact(v: &[u8]) -> Vec<u8> {
+    let b: Box<[u8]> = v.into();
+    b.into_vec()
+}
+
 pub fn beat() {
     HEARTBEAT.fetch_add(1, Ordering::Relaxed);
 }
